@@ -102,3 +102,129 @@ def transport_release(ck):
     registry_ends(ck)
 
 RELEASE_RULE = RELEASE_RULE + " (5) stream ends through the registry: " + REG_RULE
+
+
+# ---------------------------------------------------------------- conversion goroutines
+# (appended; run() calls transport_release by name, which is extended at the end of this file)
+W, CL, PR = 0, 1, 2     # harness-granularity steps: worker, closer (Close in one piece), producer (one Push)
+
+CONV_RULE = ("schedules of the conversion-goroutine LTS (Model/C03Worker.v: worker / closer / producer) replayed through the "
+             "points worker.pop / worker.got on real rtp.Demuxer, flv.Muxer and mpegts.Muxer values with a recording sink: the "
+             "computed lost-wake-up schedule (worker parked between its closed test and Pop while Close runs to completion), "
+             "Close on a waiting worker, Close with items queued (dropped), items pushed behind the nil, no Close at all, for "
+             "each converter; random schedules over 0-6 items, 60% followed by a drain so that the worker comes to rest; observed: "
+             "worker position (parked / blocked in Wait / ended), items processed, closer position, items not yet pushed; and a "
+             "real media.Stream (H264+AAC): conversion goroutines in the process (runtime.Stack) before NewStream, while open and "
+             "after Close, converters running free or held at worker.pop (packets queued / queue drained) while Close runs and "
+             "released in every order.")
+
+def conv_witness_cases():
+    out = []
+    for k in (1, 2, 3):
+        base = lambda items, sched: [k, 1, items, sched]
+        out.append(base([7], [PR, W, W, CL, W, W]))               # Coq's witness: Close while parked before Pop, then released
+        out.append(base([], [CL, W, W]))                          # the same window with nothing ever pushed
+        out.append(base([], [W, CL, W, W]))                       # Close on a worker waiting inside Pop
+        out.append(base([1, 2, 3], [PR, PR, PR, W, CL, W, W]))    # Close with items queued: 2 and 3 are dropped
+        out.append(base([1, 2], [PR, W, W, CL, PR, W, W]))        # item pushed behind the nil
+        out.append(base([1, 2, 3], [PR, W, W, W, PR, PR, W, W, W, W, W, W]))      # no Close: everything processed, worker waits
+        out.append(base([1, 2], [W, PR, CL, W, PR, W, W, W]))     # woken by a push, Close while holding an item
+        out.append(base([5], [CL, PR, W, W, W]))                  # push after Close
+    return out
+
+def conv_rand_case(rng):
+    k = rng.choice((1, 2, 3))
+    n = rng.choice((0, 0, 1, 1, 2, 3, 4, 6))
+    items = rng.sample(range(1, 5000), n)
+    wts = rng.choice(((5, 1, 3), (4, 2, 4), (3, 1, 5), (6, 3, 1)))
+    sched = rng.choices((W, CL, PR), weights=wts, k=rng.randrange(0, 22))
+    if rng.random() < 0.6:
+        tail = [PR] * n + ([CL] if rng.random() < 0.8 else []) + [W] * 3
+        rng.shuffle(tail)
+        sched = sched + tail + [W] * (2 * n + 3)
+    return [k, 1, items, sched]
+
+def conv_e2e_cases(rng, thorough):
+    import itertools
+    out = [[0, n, []] for n in (0, 3, 9)]
+    orders = [list(p) for r in (0, 1, 2, 3) for p in itertools.permutations((1, 2, 3), r)]
+    if not thorough:
+        orders = [[], [1, 2, 3], [3, 2, 1], [2, 1, 3], [3, 1], [2]]
+    for o in orders:
+        out.append([1, rng.choice((0, 1, 2, 5)), o])      # held at worker.pop, the packets still queued when Close runs
+        out.append([2, rng.choice((0, 1, 3, 6)), o])      # held at worker.pop on an empty queue when Close runs
+    return out
+
+def converter_goroutines(ck):
+    rng = ck.rng
+    n = 1500 if ck.thorough else 80
+    cases = conv_witness_cases() + [conv_rand_case(rng) for _ in range(n)]
+    ck.stream("converter-goroutines", cases, "C03_worker_run", "C03_worker", "C03_worker_ok",
+              nontrivial=lambda c: CL in c[3] and (len(c[2]) >= 1 or W in c[3][c[3].index(CL):]),
+              sig=lambda c, e, o: "converter-%d" % c[0], timeout=900)
+    e2e = conv_e2e_cases(rng, ck.thorough)
+    obs = ck.stream("converter-goroutines-stream", e2e, None, "C03_conv_e2e", "C03_conv_e2e_ok", compare=False,
+                    nontrivial=lambda c: c[0] >= 1, sig=lambda c, e, o: "converter-stream", timeout=600)
+    # the counts must have seen the goroutines while the stream was open, or the stream above shows nothing
+    import vlib
+    for c, o in zip(e2e, obs or []):
+        try:
+            v = vlib.vparse(o)
+            alive = all(d > b for b, d in zip(v[0], v[1]))
+        except Exception:
+            alive = True          # a panic / crash marker: already rejected by the oracle
+        if not alive:
+            ck.fail("converter-goroutines-stream", "converter-stream-vacuous", vlib.vs(c), observed=o,
+                    note="no conversion goroutine was seen while the stream was open: the goroutine count observes nothing")
+            break
+
+_transport_release_only = transport_release
+def transport_release(ck):
+    _transport_release_only(ck)
+    converter_goroutines(ck)
+
+RELEASE_RULE = RELEASE_RULE + " (4) conversion goroutines: " + CONV_RULE
+
+
+# ---------------------------------------------------------------- stream ends that go through the registry
+# (appended block; model / oracle: coq/Run/RunC03Reg.v, theorems C03_registry_end_releases, C03_reg_model_passes;
+#  harness command C03_reg = harness/reghist, shared with C05)
+import c05 as C5
+
+REG_RULE = ("histories of registry operations on the real media package with recording consumers (new / regist / unregist / close / "
+            "get / attach / detach / idle-tick / unregist-all; the C05 wire format and model): 60% of the shape publisher A with "
+            "consumers, replaced by B (and C) on another spelling of the path with consumers, the replaced publishers leaving late "
+            "(Unregist / Close / idle tick), then a stream end that goes through the registry (shutdown = UnregistAll, a further "
+            "publisher, Unregist or idle tick of the last one), 40% random; at the end per stream (live, successful attaches, "
+            "Consumer.Close calls recorded); the oracle ok_reg_end_C03 demands that the Close calls of every stream equal "
+            "`released` in the specification's end state: all consumers of an ended stream, the detached ones of a live stream.")
+
+reg_shape = C5.reg_shape      # publisher replaced, old publisher leaves late, a registry-borne end (defined next to C05's generator)
+
+def registry_ends(ck):
+    import vlib
+    rng = ck.rng
+    n = 3000 if ck.thorough else 300
+    raw = []
+    for _ in range(2 * n):
+        if rng.random() < 0.6:
+            raw.append(reg_shape(rng))
+        else:
+            raw.append(C5.gen_case(rng, rng.randint(4, 30 if ck.thorough else 14), [1, 1]))
+    try:
+        wf = vlib.run_driver("C03", "C03_reg_wf", [vlib.vs(c) for c in raw])
+    except vlib.Broken as b:
+        ck.broken.append(b)
+        return
+    cases = [c for c, w in zip(raw, wf) if w == "1"][:n]      # only live streams are registered (hist_wf)
+    ck.stream("registry-ends", cases, "C03_reg_run", "C03_reg", "C03_reg_ok",
+              nontrivial=lambda c: sum(1 for o in c[1] if o[0] == 1) >= 2 and any(o[0] == 7 for o in c[1])
+                                   and any(o[0] in (2, 10) for o in c[1]),
+              sig=lambda c, e, o: "registry-ends", timeout=900)
+
+_transport_release_before_registry = transport_release
+def transport_release(ck):
+    _transport_release_before_registry(ck)
+    registry_ends(ck)
+
+RELEASE_RULE = RELEASE_RULE + " (5) stream ends through the registry: " + REG_RULE
